@@ -58,10 +58,10 @@ func c18SlowScenario(delayMs int) func() schedScenario {
 					return "incomplete", nil // (a request that never completes is reported as blocked-forever by the engine)
 				}
 				if after[0] > base[0] {
-					fs = append(fs, Finding{"connections-left-behind/slow-peer", fmt.Sprintf("two updates (answered %v) under delayed Diameter messages: connections not fully closed %d -> %d one minute after they completed (dials %v)", codes[1:], base[0], after[0], sc.Results["dials"])})
+					fs = append(fs, Finding{"connections-left-behind/slow-peer", fmt.Sprintf("two updates (answered %v) under delayed / unanswered Diameter messages: connections not fully closed %d -> %d one minute after they completed (dials %v)", codes[1:], base[0], after[0], sc.Results["dials"])})
 				}
 				if after[1] > base[1] {
-					fs = append(fs, Finding{"tasks-left-behind/slow-peer", fmt.Sprintf("two updates (answered %v) under delayed Diameter messages: background goroutines %d -> %d one minute after they completed (connections %d -> %d)", codes[1:], base[1], after[1], base[0], after[0])})
+					fs = append(fs, Finding{"tasks-left-behind/slow-peer", fmt.Sprintf("two updates (answered %v) under delayed / unanswered Diameter messages: background goroutines %d -> %d one minute after they completed (connections %d -> %d)", codes[1:], base[1], after[1], base[0], after[0])})
 				}
 				return fmt.Sprintf("codes=%v conn=%d->%d gor=%d->%d", codes, base[0], after[0], base[1], after[1]), fs
 			},
@@ -75,14 +75,60 @@ func c18SlowScenario(delayMs int) func() schedScenario {
 	}
 }
 
+// c18SilentScenario: the peers never answer (a rating group they know nothing about), so both exchanges of the update end
+// by time-out; PARK deviations at the library's locks and at network operations explore the orders in which the
+// connection's reader task and the requesting task reach their synchronisation points (in a real run either may be first).
+func c18SilentScenario() schedScenario {
+	return schedScenario{
+		Cfg: WorldCfg{Accounts: []Account{{supiA, 1, "100000", "1"}}, HorizonS: 600},
+		Body: func(w *World, sc *schedCtx) {
+			sc.Go("T1", func() {
+				h := w.ExecOps([]string{supiA}, []Op{mkCreate(0, "smf1")}, 1, false)
+				if len(h.Sess) == 0 {
+					return
+				}
+				ref := h.Sess[0].Ref
+				upd := func(rg, req, used, seq int32) int {
+					op := Op{K: "update", S: 0, MUs: []MU{{RG: rg, Req: req, Conts: []Cont{{Vol: used, Seq: seq}}}}, Seq: seq}
+					return w.Do("POST", ccBase+"/chargingdata/"+ref+"/update", op.Request(supiA), nil).Code
+				}
+				c0 := upd(1, 50, 0, 1)
+				c1 := upd(77, 50, 0, 2) // steady state of the silent case as well
+				time.Sleep(60 * time.Second)
+				vs.Quiesce()
+				base := w.Snapshot(true)
+				sc.Free()
+				c2 := upd(77, 50, 0, 3)
+				time.Sleep(60 * time.Second)
+				vs.Quiesce()
+				sc.Stop()
+				after := w.Snapshot(true)
+				sc.Results["codes"] = []int{c0, c1, c2}
+				sc.Results["base"] = [2]int{base.Open + base.Half, base.Gor}
+				sc.Results["after"] = [2]int{after.Open + after.Half, after.Gor}
+				sc.Results["dials"] = after.Dials
+			})
+		},
+		Observe: c18SlowScenario(0)().Observe,
+		Elig: func(def, alt string) bool {
+			if alt != "PARK" {
+				return false
+			}
+			k := kindOf(def)
+			return strings.HasPrefix(k, "d.") || strings.HasPrefix(k, "net.")
+		},
+	}
+}
+
 func init() {
 	schedScenarios["c18-slow-3s"] = c18SlowScenario(3000)
 	schedScenarios["c18-slow-6s"] = c18SlowScenario(6000)
+	schedScenarios["c18-silent-peer"] = c18SilentScenario
 }
 
 func c18SlowPeers(rep *Report, pool *Pool) (per []map[string]any, execs int, exhaustive bool) {
 	exhaustive = true
-	for _, name := range []string{"c18-slow-3s", "c18-slow-6s"} {
+	for _, name := range []string{"c18-slow-3s", "c18-slow-6s", "c18-silent-peer"} {
 		bound, capExecs := 1, 3000
 		if rep.Tier == "thorough" {
 			bound, capExecs = 2, 40000
